@@ -345,13 +345,16 @@ func ExecPlan(cs *CiscoCase, p Plan, keepStates bool, stepwise bool, loose ...bo
 		o.Unchanged = o.StateDiff
 	}
 	if stepwise && o.StepKey == "" && len(o.Rejects) == 0 {
-		newV, _, err := evalAll(n.Conf, sc, pk)
+		// "New" is the target, not whatever the script ends with: a wrong
+		// verdict that stays until the end is a wrong step, too.
+		newV, _, err := evalAll(cs.B, sc, pk)
 		if err != nil {
 			o.Step, o.StepKey = "harness: "+err.Error(), "harness"
 			return o
 		}
-		newR := routeDsts(n.Conf, sc)
-		oldC, newC := routeCover(cs.A, sc), routeCover(n.Conf, sc)
+		finalV, _, _ := evalAll(n.Conf, sc, pk)
+		newR := routeDsts(cs.B, sc)
+		oldC, newC := routeCover(cs.A, sc), routeCover(cs.B, sc)
 		// The statement does not cover edits to the membership of an
 		// object-group: ACLs that use such a group (before or after) are
 		// not judged.
@@ -432,6 +435,10 @@ func ExecPlan(cs *CiscoCase, p Plan, keepStates bool, stepwise bool, loose ...bo
 						o.StepKey = stepKind(p.Script, i) + "|" + cls + "|" + dir
 						if sharedOnDevice(cs.A, sc, b) {
 							o.StepKey = "shared-acl-on-device|" + dir
+						}
+						if fv, ok := finalV[b]; ok && fv[j] != nv[j] {
+							// not transient: the script ends with it (C01/C02 judge that, too)
+							o.StepKey += "|persists"
 						}
 						return o
 					}
